@@ -70,6 +70,8 @@ pub fn generate_op(seed: u64, instr: &str, thorough: bool) -> OpSc {
     }
     // offenders never get here (the ascent stops at the first excess)
     magnitudes.push(i32::MAX as i64);
+    // pseudo-magnitude: non-finite / extreme floats and i32::MIN, also inside code items
+    magnitudes.push(NONFINITE);
     OpSc {
         seed,
         instr: instr.to_string(),
@@ -80,6 +82,12 @@ pub fn generate_op(seed: u64, instr: &str, thorough: bool) -> OpSc {
         magnitudes,
         env_seed: derive(seed, "env"),
     }
+}
+
+pub const NONFINITE: i64 = -1;
+
+fn special_float(k: usize) -> f32 {
+    [f32::INFINITY, f32::NEG_INFINITY, f32::NAN, f32::MAX, f32::MIN, f32::MIN_POSITIVE][k % 6]
 }
 
 fn operand(layout: u8, m: i64, small: i32) -> i32 {
@@ -102,20 +110,36 @@ pub struct Cost {
 }
 
 /// One step of `instr` with operands of magnitude m; deterministic cost.
-fn measure(sc: &OpSc, m: i64, iset: &mut InstructionSet) -> Result<Cost, PanicInfo> {
+fn measure(sc: &OpSc, m: i64, iset: &mut InstructionSet) -> Result<Cost, (PanicInfo, u64)> {
     let cfg = ConfigSpec::default_cfg();
     let mut env = EnvScript::quiet(sc.env_seed);
     env.draw_budget = u64::MAX;
     // begin first: the state's graphs take their node ids from the simulated counter
     simenv::begin(&env, Envelope::off(), &[], None);
     let mut st = sc.state.build(&cfg);
+    let mi = if m == NONFINITE { i32::MIN as i64 } else { m };
     for (k, l) in sc.int_layout.iter().enumerate() {
-        st.int_stack.push(operand(*l, m, sc.small_ints[k % sc.small_ints.len()]));
+        st.int_stack.push(operand(*l, mi, sc.small_ints[k % sc.small_ints.len()]));
     }
     for (k, l) in sc.float_layout.iter().enumerate() {
-        let v = operand(*l, m, sc.small_ints[k % sc.small_ints.len()]);
-        st.float_stack.push(if *l == 2 { v as f32 / 16.0 } else { v as f32 });
+        let v = operand(*l, mi, sc.small_ints[k % sc.small_ints.len()]);
+        st.float_stack.push(if *l == 2 {
+            v as f32 / 16.0
+        } else if m == NONFINITE {
+            special_float(k + sc.seed as usize)
+        } else {
+            v as f32
+        });
     }
+    // operands also live inside code: literals of the same magnitude in CODE / EXEC items
+    // (printing, comparing and searching code must not depend on their values either)
+    let lit_f = if m == NONFINITE { special_float(sc.seed as usize / 7) } else { m as f32 * 1.5 };
+    let lit = Item::list(vec![Item::int(mi as i32), Item::float(lit_f), Item::list(vec![Item::float(-lit_f)])]);
+    st.code_stack.push(lit.clone());
+    st.code_stack.push(Item::float(lit_f));
+    st.exec_stack.push(lit.clone());
+    st.exec_stack.push(lit);
+    st.float_vector_stack.push(pushr::push::vector::FloatVector::new(vec![lit_f, 1.0, -lit_f]));
     st.exec_stack.push(Item::instruction(sc.instr.clone()));
     let statebytes = statecode::statecode(&st).len() as u64;
     simenv::trace_note(&sc.instr);
@@ -129,14 +153,17 @@ fn measure(sc: &OpSc, m: i64, iset: &mut InstructionSet) -> Result<Cost, PanicIn
     let after = alloc::snapshot();
     let core = simenv::end();
     drop(st);
-    r.map(|_| Cost {
-        bytes: after.total - before.total,
-        calls: after.calls - before.calls,
-        draws: core.draws,
-        slept_us: core.slept_us,
-        wall_ms,
-        statebytes,
-    })
+    match r {
+        Ok(()) => Ok(Cost {
+            bytes: after.total - before.total,
+            calls: after.calls - before.calls,
+            draws: core.draws,
+            slept_us: core.slept_us,
+            wall_ms,
+            statebytes,
+        }),
+        Err(p) => Err((p, wall_ms)),
+    }
 }
 
 pub struct OpResult {
@@ -173,16 +200,26 @@ pub fn execute_op(sc: &OpSc, iset: &mut InstructionSet) -> OpResult {
         let first = measure(sc, m, iset);
         let second = match &first {
             Ok(c) if c.bytes <= A_BYTES / 4 && c.wall_ms < 100 => measure(sc, m, iset),
-            _ => Err(PanicInfo { msg: String::new(), file: String::new(), line: 0 }),
+            _ => Err((PanicInfo { msg: String::new(), file: String::new(), line: 0 }, 0)),
         };
         let best = match (first, second) {
             (Ok(a), Ok(b)) => Ok(if b.bytes < a.bytes { b } else { a }),
             (a, _) => a,
         };
         match best {
-            Err(_p) => {
-                // a crashing step is C01's matter
+            Err((_p, wall_ms)) => {
+                // a crashing step is C01's matter; one that crashes after seconds of work is also ours
                 stats.outcome = "panic".into();
+                if wall_ms > 1_000 {
+                    vs.push(Violation {
+                        property: "C15".into(),
+                        class: "oracle:operand-cost".into(),
+                        site: format!("{}: one step runs for seconds before it fails", sc.instr),
+                        detail: format!("{} with operands of magnitude {}: {} ms of wall clock, then a panic", sc.instr, if m == NONFINITE { "non-finite/extreme".to_string() } else { m.to_string() }, wall_ms),
+                        at_event: m as u64,
+                    });
+                    stats.outcome = "excess".into();
+                }
                 break;
             }
             Ok(c) => {
@@ -208,7 +245,7 @@ pub fn execute_op(sc: &OpSc, iset: &mut InstructionSet) -> OpResult {
                         property: "C15".into(),
                         class: "oracle:operand-cost".into(),
                         site: format!("{}: the cost of one step {}", sc.instr, class),
-                        detail: format!("{} with operands of magnitude {}: {} {} (bound {} = 64 KiB + 64 x {} state bytes; {} at magnitude {})", sc.instr, m, got, what, lim, c.statebytes, before, m / 10),
+                        detail: format!("{} with operands of magnitude {}: {} {} (bound {} = 64 KiB + 64 x {} state bytes; {} at the previous magnitude)", sc.instr, if m == NONFINITE { "non-finite/extreme".to_string() } else { m.to_string() }, got, what, lim, c.statebytes, before),
                         at_event: m as u64,
                     });
                     stats.outcome = "excess".into();
